@@ -10,21 +10,10 @@ TI = "sender::filedesc::TransferInfo"
 FD = "sender::filedesc::FileDesc"
 
 
-def run(ctx):
+def transfer_counter_rule(ctx, r1):
+    """who writes the per-object transfer counters, and with what (shared with C02.R6 / C08.R9: is_last_transfer, which raises the B flag,
+    assumes the running transfer is not yet counted)"""
     prog = ctx.prog
-    ctx.explanation = (
-        "C12 quantifies over operation histories; decided here are the mechanism's necessary conditions: R1 the "
-        "transfer counters are written only by TransferInfo::done (+1) and TransferInfo::init (carousel reset), R2 the "
-        "expiry / last-transfer predicates have the stated polarity over all orderings of (count, max) x carousel, "
-        "R3 Fdt::transfer_done requeues or forgets, never both, and ignores removed objects, R4 every loop on the "
-        "sender's read path has a progress argument.")
-    ctx.not_decided += ["exact packet counts on the wire over all histories", "termination of read() in general",
-                        "observer-visible transfer counter equals completed transfers (needs history)"]
-
-    # ---- R1 ------------------------------------------------------------------------------
-    r1 = ctx.rule("C12.R1", "TransferInfo.transfer_count is written only in TransferInfo::done (old + 1) and "
-                            "TransferInfo::init (reset to 0 under carousel); total_nb_transfer only as old + 1 in done", "WWF")
-
     def chk_count(a):
         fn = a["func"].path
         v = a["value"]
@@ -57,6 +46,24 @@ def run(ctx):
     wmc(r1, prog, r"TransferInfo::done$", [r"^sender::filedesc::FileDesc::transfer_done$"])
     wmc(r1, prog, r"^sender::filedesc::FileDesc::transfer_done$", [r"^sender::fdt::Fdt::transfer_done$"])
     wmc(r1, prog, r"^sender::fdt::Fdt::transfer_done$", [r"^sender::sendersession::SenderSession::release_file$"])
+
+
+def run(ctx):
+    prog = ctx.prog
+    ctx.explanation = (
+        "C12 quantifies over operation histories; decided here are the mechanism's necessary conditions: R1 the "
+        "transfer counters are written only by TransferInfo::done (+1) and TransferInfo::init (carousel reset), R2 the "
+        "expiry / last-transfer predicates have the stated polarity over all orderings of (count, max) x carousel, "
+        "R3 Fdt::transfer_done requeues or forgets, never both, and ignores removed objects, R4 every loop on the "
+        "sender's read path has a progress argument.")
+    ctx.not_decided += ["exact packet counts on the wire over all histories", "termination of read() in general",
+                        "observer-visible transfer counter equals completed transfers (needs history)"]
+
+    # ---- R1 ------------------------------------------------------------------------------
+    r1 = ctx.rule("C12.R1", "TransferInfo.transfer_count is written only in TransferInfo::done (old + 1) and "
+                            "TransferInfo::init (reset to 0 under carousel); total_nb_transfer only as old + 1 in done", "WWF")
+
+    transfer_counter_rule(ctx, r1)
 
     # ---- R2 polarity ------------------------------------------------------------------------
     r2 = ctx.rule("C12.R2", "FileDesc::is_expired == (count >= max) && carousel is None; FileDesc::is_last_transfer == "
